@@ -1833,7 +1833,14 @@ func (r *Runner) reopen(kind string) bool {
 		if strings.HasPrefix(err.Error(), "watchdog") {
 			return r.watchdog(err.Error())
 		}
-		r.viol("reopen", "reopen-failed", kind, err.Error())
+		disc := kind
+		if kind == "abort" && (r.RaceReopen || r.P.RaceReopen) && strings.Contains(err.Error(), "could not open/parse any file") {
+			// reopened without waiting for the closed instance's asynchronous
+			// file removals: the file abandoned by the aborted round was
+			// still listed, or vanished while it was being opened
+			disc = "abort/racing-removal-of-abandoned-file"
+		}
+		r.viol("reopen", "reopen-failed", disc, err.Error())
 		return false
 	}
 	r.cnt("reopens."+kind, 1)
